@@ -174,7 +174,7 @@ Qed.
 
 Lemma ptr_roundtrip_lem v p v4 :
   wf_prefix p -> bytes_ok (n_ip p) -> length v4 = 4%nat -> bytes_ok v4 ->
-  (fx_contains v = true \/ (v = cur /\ quirk p v4 = false)) ->
+  (fx_contains v = true \/ (v = old /\ quirk p v4 = false)) ->
   match parse_ip6_arpa (arpa_name (embed p v4)) with
   | Some addr => extract v p addr
   | None => None
@@ -182,7 +182,7 @@ Lemma ptr_roundtrip_lem v p v4 :
 Proof.
   intros W Bp L4 B4 Hv.
   rewrite parse_arpa_name.
-  - destruct Hv as [Hv | [-> Hq]]; [apply extract_embed_fixed | apply extract_embed_cur]; auto.
+  - destruct Hv as [Hv | [-> Hq]]; [apply extract_embed_fixed | apply extract_embed_old]; auto.
   - apply embed_layout; auto.
   - apply bytes_ok_embed; auto.
 Qed.
@@ -263,7 +263,7 @@ Qed.
 Lemma ptr_target_roundtrip v c cp v4 :
   c_prefixes c = [cp] -> wf_prefix (cp_net cp) -> bytes_ok (n_ip (cp_net cp)) ->
   length v4 = 4%nat -> bytes_ok v4 -> should_exclude_a c v4 cp = false ->
-  (fx_contains v = true \/ (v = cur /\ quirk (cp_net cp) v4 = false)) ->
+  (fx_contains v = true \/ (v = old /\ quirk (cp_net cp) v4 = false)) ->
   ptr_target v c (lower (arpa_name (embed (cp_net cp) v4))) = Some v4.
 Proof.
   intros Hc W Bp L4 B4 X Hv.
@@ -271,6 +271,33 @@ Proof.
   unfold ptr_target. rewrite lower_arpa_name by exact Be.
   rewrite parse_arpa_name; [| apply embed_layout; auto | exact Be ].
   assert (extract v (cp_net cp) (embed (cp_net cp) v4) = Some v4) as E.
-  { destruct Hv as [Hv | [-> Hq]]; [apply extract_embed_fixed | apply extract_embed_cur]; auto. }
+  { destruct Hv as [Hv | [-> Hq]]; [apply extract_embed_fixed | apply extract_embed_old]; auto. }
   rewrite Hc. cbn [ptr_find]. rewrite (extract_contains _ _ _ _ E). cbn [negb]. rewrite E, X. reflexivity.
+Qed.
+
+(* ---------------- the tree as it is ---------------- *)
+Lemma ptr_roundtrip_now p v4 :
+  wf_prefix p -> bytes_ok (n_ip p) -> length v4 = 4%nat -> bytes_ok v4 ->
+  match parse_ip6_arpa (arpa_name (embed p v4)) with
+  | Some addr => extract cur p addr
+  | None => None
+  end = Some v4.
+Proof. intros. apply ptr_roundtrip_lem; auto. Qed.
+
+Lemma ptr_target_roundtrip_now c cp v4 :
+  c_prefixes c = [cp] -> wf_prefix (cp_net cp) -> bytes_ok (n_ip (cp_net cp)) ->
+  length v4 = 4%nat -> bytes_ok v4 -> should_exclude_a c v4 cp = false ->
+  ptr_target cur c (lower (arpa_name (embed (cp_net cp) v4))) = Some v4.
+Proof. intros. apply ptr_target_roundtrip; auto. Qed.
+
+(* what handlePTR translates is an embedding under a configured prefix *)
+Lemma ptr_find_embedding c addr ps v4 :
+  Forall (fun p => wf_prefix (cp_net p) /\ bytes_ok (n_ip (cp_net p))) ps ->
+  length addr = 16%nat -> bytes_ok addr ->
+  ptr_find cur c addr ps = Some v4 ->
+  exists p, In p ps /\ addr = embed (cp_net p) v4 /\ length v4 = 4%nat /\ should_exclude_a c v4 p = false.
+Proof.
+  intros F L B H. apply ptr_find_sound in H as (p & I & E & X).
+  rewrite Forall_forall in F. destruct (F p I) as (W & Bp).
+  apply extract_sound_now in E; auto. destruct E as (E & L4). eauto.
 Qed.
